@@ -122,7 +122,7 @@ func (w *World) ssaPkg(path string) *ssa.Package {
 			return p
 		}
 	}
-	return nil
+	return w.prog.ImportedPackage(path)
 }
 
 func (w *World) contractFor(f *ssa.Function) *FnContract {
